@@ -281,10 +281,11 @@ Proof.
     rewrite (bytes_cmp_lt_trans b c a A Cca) in H1. discriminate.
 Qed.
 
-Lemma sorted_perm_unique (l1 l2 : list bytes) :
-  StronglySorted addr_le l1 -> StronglySorted addr_le l2 -> Permutation l1 l2 -> l1 = l2.
+Lemma sorted_perm_unique_gen {A} (R : A -> A -> Prop) (l1 l2 : list A) :
+  (forall a b, In a l1 -> In b l1 -> R a b -> R b a -> a = b) ->
+  StronglySorted R l1 -> StronglySorted R l2 -> Permutation l1 l2 -> l1 = l2.
 Proof.
-  revert l2; induction l1 as [|h1 t1 IH]; intros l2 S1 S2 P.
+  revert l2; induction l1 as [|h1 t1 IH]; intros l2 AS S1 S2 P.
   - apply Permutation_nil in P. auto.
   - destruct l2 as [|h2 t2]; [apply Permutation_sym, Permutation_nil in P; discriminate|].
     apply StronglySorted_inv in S1 as [S1 F1]. apply StronglySorted_inv in S2 as [S2 F2].
@@ -292,9 +293,15 @@ Proof.
     { assert (I1 : In h1 (h2 :: t2)) by (eapply Permutation_in; [exact P|left; reflexivity]).
       assert (I2 : In h2 (h1 :: t1)) by (eapply Permutation_in; [apply Permutation_sym; exact P|left; reflexivity]).
       destruct I1 as [->|I1]; [reflexivity|]. destruct I2 as [->|I2]; [reflexivity|].
-      rewrite Forall_forall in F1, F2. apply addr_le_antisym; auto. }
-    f_equal. apply IH; auto. eapply Permutation_cons_inv; exact P.
+      rewrite Forall_forall in F1, F2. apply AS; [left; reflexivity|right; exact I2|auto|auto]. }
+    f_equal. apply IH; auto.
+    + intros a b Ia Ib. apply AS; right; assumption.
+    + eapply Permutation_cons_inv; exact P.
 Qed.
+
+Lemma sorted_perm_unique (l1 l2 : list bytes) :
+  StronglySorted addr_le l1 -> StronglySorted addr_le l2 -> Permutation l1 l2 -> l1 = l2.
+Proof. apply sorted_perm_unique_gen. intros a b _ _. apply addr_le_antisym. Qed.
 
 Section ValidatorsLoop.
   Context {V : Type} (sort : list bytes -> list bytes) (sort_ok : sort_spec sort).
@@ -363,3 +370,41 @@ Proof.
   - eapply Permutation_trans; [apply addr_insert_perm|apply perm_skip; exact P].
   - apply addr_insert_sorted; exact S.
 Qed.
+
+(** ** Loop 5: typed-event attributes (library loop) and its repair *)
+
+Lemma typed_event_attrs_id {K V} (l : list (K * V)) : typed_event_attrs l = l.
+Proof.
+  unfold typed_event_attrs.
+  assert (G : forall acc, fold_left (fun acc e => acc ++ [e]) l acc = acc ++ l).
+  { induction l as [|e l IH]; intro acc; cbn; [rewrite app_nil_r; reflexivity|].
+    rewrite IH, <- app_assoc. reflexivity. }
+  apply (G []).
+Qed.
+
+(** with the repair, the emitted attribute list is the same for every enumeration of the attribute map *)
+Theorem typed_event_attrs_sorted_perm {V} (sort : list (bytes * V) -> list (bytes * V)) :
+  attr_sort_spec sort ->
+  forall l l', Permutation l l' -> NoDup (map fst l) ->
+  typed_event_attrs_sorted sort l = typed_event_attrs_sorted sort l'.
+Proof.
+  intros SP l l' P ND. unfold typed_event_attrs_sorted. rewrite !typed_event_attrs_id.
+  destruct (SP l) as [P1 S1]. destruct (SP l') as [P2 S2].
+  apply (sorted_perm_unique_gen attr_le); auto.
+  - intros a b Ia Ib H1 H2. unfold attr_le in *.
+    apply (NoDup_map_In_inj fst l a b ND).
+    + eapply Permutation_in; [exact P1|exact Ia].
+    + eapply Permutation_in; [exact P1|exact Ib].
+    + apply addr_le_antisym; assumption.
+  - eapply Permutation_trans; [exact P1|]. eapply Permutation_trans; [exact P|apply Permutation_sym; exact P2].
+Qed.
+
+(** ** ETH seal verification: the repaired function does not read the environment *)
+Theorem verify_cascading_in_memory_env_independent (t1 t2 seal_ok : bool) :
+  verify_cascading_in_memory t1 seal_ok = verify_cascading_in_memory t2 seal_ok.
+Proof. reflexivity. Qed.
+
+(** the unrepaired one agrees between nodes only when both have a usable temporary directory *)
+Theorem verify_cascading_same_env (seal_ok : bool) :
+  verify_cascading true seal_ok = verify_cascading_in_memory true seal_ok.
+Proof. reflexivity. Qed.
